@@ -931,14 +931,18 @@ func (c *RaftCluster) GetAdjacentRegions(region *core.RegionInfo) (*core.RegionI
 // UpdateStoreLabels updates a store's location labels
 // If 'force' is true, then update the store's labels forcibly.
 func (c *RaftCluster) UpdateStoreLabels(storeID uint64, labels []*metapb.StoreLabel, force bool) error {
+	// look the store up under the same lock that guards the update: a snapshot taken before the lock would
+	// overwrite (or re-create) whatever a concurrent PutStore / RemoveTombStoneRecords did in between
+	c.Lock()
+	defer c.Unlock()
 	store := c.GetStore(storeID)
 	if store == nil {
 		return errors.Errorf("invalid store ID %d, not found", storeID)
 	}
 	newStore := proto.Clone(store.GetMeta()).(*metapb.Store)
 	newStore.Labels = labels
-	// PutStore will perform label merge.
-	return c.putStoreImpl(newStore, force)
+	// putStoreImplLocked will perform label merge.
+	return c.putStoreImplLocked(newStore, force)
 }
 
 // PutStore puts a store.
@@ -956,7 +960,10 @@ func (c *RaftCluster) PutStore(store *metapb.Store) error {
 func (c *RaftCluster) putStoreImpl(store *metapb.Store, force bool) error {
 	c.Lock()
 	defer c.Unlock()
+	return c.putStoreImplLocked(store, force)
+}
 
+func (c *RaftCluster) putStoreImplLocked(store *metapb.Store, force bool) error {
 	if store.GetId() == 0 {
 		return errors.Errorf("invalid put store %v", store)
 	}
